@@ -10,7 +10,7 @@ import glob
 import json
 from pathlib import Path
 
-from . import build, common, compile_check as CC, compile_trace, scenarios as S
+from . import build, common, compile_check as CC, compile_trace, painted_check, scenarios as S
 from .common import MachineryError
 
 
@@ -249,6 +249,7 @@ def run(chk):
     chk.notes["model_scenarios"] = len(recs)
     replay_model_scenarios(chk, recs, 90 if quick else 2500)
     random_scenarios(chk, 60 if quick else 2500)
+    painted_check.run(chk)     # the SVG-tree -> Paint-tree front end, exhaustively over small document trees
     nested_groups(chk)
     coincidence_scenarios(chk, 60 if quick else 2000)
     transform_fill_grid(chk)
